@@ -32,7 +32,29 @@ pub fn valid_history(rng: &mut Rng, m: &Model, n_msgs: usize, max_units: usize, 
 
 /// byte stream of one of the classes of DESIGN 4.2
 pub fn any_stream(rng: &mut Rng, m: &Model, n: usize, max: usize) -> (Vec<u8>, &'static str) {
-    match rng.below(10) {
+    match rng.below(11) {
+        10 => {
+            // more parameters than supported: a header followed by 8..14 arguments
+            let mut s = Vec::new();
+            for _ in 0..rng.range(1, 2) {
+                let sp = rng.pick(&m.spelled);
+                s.extend_from_slice(sp.path.join(":").as_bytes());
+                if m.decl(sp.decl).query {
+                    s.push(b'?');
+                }
+                s.push(b' ');
+                let k = rng.range(8, 14);
+                for i in 0..k {
+                    if i > 0 {
+                        s.push(b',');
+                    }
+                    s.extend_from_slice(*rng.pick(&[&b"1"[..], b"ON", b"\"x\"", b"#11a", b"2.5", b"#HFF"]));
+                }
+                s.push(if rng.chance(1, 4) { b';' } else { b'\n' });
+            }
+            s.truncate(max.max(40));
+            (s, "many-arguments")
+        }
         0..=3 => (gen::arbitrary_stream(rng, m, max), "arbitrary"),
         4..=5 => {
             let k = rng.range(1, 5);
